@@ -1,8 +1,8 @@
 #!/bin/bash
 # usage: seedtest.sh <PROP> <N> [check-prop ...]
 # Confirms the seeded change /tmp/seed/<PROP>/out/<N> in its scratch worktree (tests pass, demo fails with
-# the patch and passes without), stores it as /verif/seeded/<PROP>-<N>/, then applies it to /repo, runs the
-# owning check(s) and reverts /repo.
+# the patch and passes without), stores it as /verif/seeded/<PROP>-<N>/, then runs the
+# owning check(s) against that worktree (VERIF_REPO); /repo is not touched.
 P=$1; N=$2; shift 2
 CHECKS=${@:-$P}
 W=/tmp/seed/$P
@@ -18,15 +18,14 @@ PYTHONPATH=$W /venv/bin/python $O/demo.py > /tmp/seed/demo.$P.$N.without 2>&1; D
 echo "tests_pass_rc=$T demo_with_patch_rc=$DW demo_without_rc=$DO"
 if [ $T != 0 ] || [ $DW = 0 ] || [ $DO != 0 ]; then echo "NOT CONFIRMED"; exit 3; fi
 mkdir -p $D; cp $O/patch.diff $O/demo.py $D/; cp $O/meta.json $D/meta.agent.json
-cd /repo && git status --porcelain | grep -q . && { echo "/repo dirty"; exit 2; }
-git -C /repo apply $D/patch.diff || { echo "patch does not apply to /repo HEAD"; exit 4; }
+# the owning check(s) run against the scratch worktree with the patch applied (VERIF_REPO): /repo itself is never touched
+cd $W && git apply $O/patch.diff || { echo "patch does not re-apply"; exit 4; }
 RES=""
 for C in $CHECKS; do
-  (cd /verif && ./check $C --tier quick > /tmp/seed/check.$P.$N.$C.out 2>&1); rc=$?
+  (cd /verif && VERIF_REPO=$W ./check $C --tier quick > /tmp/seed/check.$P.$N.$C.out 2>&1); rc=$?
   v=$(grep -c '^VIOLATION' /tmp/seed/check.$P.$N.$C.out)
   echo "check $C rc=$rc violations=$v"; grep -m2 -A1 '^VIOLATION' /tmp/seed/check.$P.$N.$C.out | cut -c1-400
   RES="$RES $C:rc=$rc:violations=$v"
 done
-git -C /repo checkout -q -- .
-rm -rf /verif/replays/*
+cd $W && git checkout -q -- .
 echo "$RES" > $D/result.txt
